@@ -55,6 +55,8 @@ def content(kind, cid):
 
 
 VALID = ("valid", "valid2")
+# ~250 KB that only turn out to be unusable at their very end: keeps the watcher thread busy for a while
+BIG = '{"rulesets": [' + '{"name": "r1", "detectors": [["dg", {"name": "v_det", "args": {"id": "busy"}}]]},' * 3000
 KINDS = ["valid", "valid", "valid", "valid2", "badjson", "garbage", "unknown_target", "forbidden", "bad_value", "bad_shape", "empty"]
 
 
@@ -125,6 +127,18 @@ def gen(rng, cid, nops):
                 ops.append({"op": "wait_ticks", "n": rng.randint(1, 3)})
             state[f] = (k, c)
             invalid += 1
+        elif r < 0.84:
+            # two operations of different kind on one name, back to back, while the watcher is busy parsing a big file: both
+            # events wait in the same inotify batch (rewrite-then-delete / delete-then-re-create)
+            k, c = new("valid", f)
+            ops.append({"op": "write", "file": "zbusy.json", "text": BIG})
+            if rng.random() < 0.5:
+                ops += [{"op": "write", "file": f, "text": content(k, c)}, {"op": "delete", "file": f}]
+                state.pop(f, None)
+            else:
+                ops += [{"op": "delete", "file": f}, {"op": "write", "file": f, "text": content(k, c)}]
+                state[f] = (k, c)
+            ops.append({"op": "delete", "file": "zbusy.json"})
         elif r < 0.9:
             ops.append({"op": "wait_ticks", "n": rng.randint(1, 4)})
     # make sure something valid is there at the end
